@@ -7,7 +7,7 @@
 From Coq Require Import ZArith List Bool Lia Reals.
 From MV Require Import Lib.Rigid Lib.OctZ Lib.ListIdx Model.Level2Model Model.Level2Flat Model.Level2Exec
   Model.CoreNum Model.CoreSpec
-  Proofs.Level2C Proofs.Level2C05 Proofs.LinearExc.
+  Gen.GenReduce Proofs.Level2C Proofs.Level2C05 Proofs.Level2C05Gen Proofs.LinearExc.
 From MV Require Model.CoreModel.
 Import ListNotations.
 Open Scope nat_scope.
@@ -30,6 +30,23 @@ Theorem C05_collection_reduce_spec : forall (P : Type) (blockof : leaf P -> bloc
   reduce_collections P srcs (map blockof (src_list srcs))
   = map (fun s => sum_blocks (map blockof (leaves s))) srcs.
 Proof. exact reduce_collections_spec. Qed.
+
+(* (c) the loop TRANSLATED from /repo on this run (Gen/GenReduce.v: guard, loop header, isinstance test,
+   col_len, slice sum and np.delete with their index arithmetic as written in the source) is the loop
+   of the model, and has the same specification *)
+Theorem C05_translated_loop_is_model : forall (P : Type) (srcs : list (srcin P)) (B : list block),
+  gen_reduce_collections P srcs B = reduce_collections P srcs B.
+Proof. exact gen_reduce_collections_eq. Qed.
+
+Theorem C05_translated_reduce_spec : forall (P : Type) (blockof : leaf P -> block) (srcs : list (srcin P)),
+  (forall s, In s srcs -> leaves s <> []) ->
+  gen_reduce_collections P srcs (map blockof (src_list srcs))
+  = map (fun s => sum_blocks (map blockof (leaves s))) srcs.
+Proof. exact gen_reduce_collections_spec. Qed.
+
+Theorem C05_translated_sumup : forall (sumup : bool) (o : out_t),
+  gen_sumup sumup o = if sumup then sum_out o else o.
+Proof. exact gen_sumup_eq. Qed.
 
 (* ---- flattening: format_obj_input(collection, allow="sources") is the DFS leaf list with sensors
    dropped; col_len counts exactly these leaves; format_src_inputs accepts exactly the non-empty
@@ -128,6 +145,9 @@ End AnyRigidAlgebra.
 
 Print Assumptions C05_collection_reduce_loop.
 Print Assumptions C05_collection_reduce_spec.
+Print Assumptions C05_translated_loop_is_model.
+Print Assumptions C05_translated_reduce_spec.
+Print Assumptions C05_translated_sumup.
 Print Assumptions C05_flatten_dfs.
 Print Assumptions C05_col_len.
 Print Assumptions C05_format_src_inputs.
